@@ -115,6 +115,13 @@ check("C17",
   "Signatures are unforgeable; one attacker key. Pure relay of a genuine answer to a genuine challenge (no channel binding in the protocol) is not flagged.",
   "DESIGN.md §3 C17")
 
+check("C11",
+  "explicit-state breadth-first search over hostile peer input on a real FullNode (routing, verification and consensus handlers), every delivery order of the internal channels",
+  "model_checking",
+  "One real FullNode with a 3-block chain in full-node and in lite (SPV) configuration; an honest peer runs a 7-step script (announce a block, serve it, send a transaction, timers, chain request); three hostile senders (authenticated, connected-but-never-authenticated, unknown index) draw from an alphabet of about 150 symbols: every message tag in hostile shapes (Block-tagged message, chain / ghost-chain requests with 0 and u64::MAX, ghost chains empty / fabricated / huge ids, key lists up to the rate limit, unsolicited handshake traffic, undecodable and truncated buffers), 13 hostile transactions (96-byte golden ticket, no inputs, producer-only types, theft, wrapping amounts, bad path), 17 hostile block buffers served for an announced hash (garbage, truncated, wrong hash / id, bad signatures, double spend, malformed golden ticket / rebroadcast / fee payloads, id 0 and u64::MAX, failing fetch), an invalid-block burst, connection events for known and unknown indices. Histories = interleavings of honest steps, at most 1 (quick) / 2 (thorough, capped) hostile symbols and single deliveries of the verification / consensus / routing channel heads; state = history, deduplicated by digest. Every handler call must return (no panic, no stall, no step-budget cut); every quiescent end state's honest-visible projection (tip, longest chain, utxo, supply, pool, the honest peer's table entry, messages sent to the honest peer) must be one that the hostile-free schedules also reach.",
+  "Socket layer raises fetch results only for requested fetches and answers disconnect requests; InterfaceIO calls succeed; in lite mode blocks and ghost chains from an authenticated peer are accepted input by design (only abort-freedom is checked for them); announcements of unvalidated side-chain blocks are relayed by design and are not part of the comparison.",
+  "DESIGN.md §3 C11")
+
 NOT_YET = "check not built yet in this session (work in progress, see DESIGN.md §8 build order); nothing is claimed for it"
 NA = {}
 
